@@ -156,4 +156,13 @@ theorem queue_shape_of_source :
        "if self._enqueue: self._queue.put(str_record) else: self._sink.write(str_record)"] := by
   decide
 
+/-- tie G for the premise "an accepted message always enters the queue": `put` pickles the formatted text with its
+record; the one field loguru itself has to make picklable is the exception, and both directions fall back to a
+value-less `RecordException` for EVERY `Exception` the user's value raises while being pickled / unpickled, and to
+a type-less one when the exception CLASS cannot be pickled (a class defined in a function; defect F28, repaired) –
+so no exception can make `put` (or the worker's `get`) fail and lose the message. -/
+theorem exception_value_never_blocks_the_queue :
+    Queue.ShapeGen.reduceGuardsAll = true ∧ Queue.ShapeGen.reduceGuardsType = true ∧
+    Queue.ShapeGen.loadGuardsAll = true := by decide
+
 end C03
